@@ -162,6 +162,34 @@ fn inverse_laws(u: u8, ts: &[i64], durs: &[(String, TimeDelta, i128)], ctx: &mut
     }
 }
 
+/// the difference of any two instants of the grid - near or centuries apart - is the exact duration between
+/// them: (a - b) + b == a, a - (a - b) == b, and the month-free part carries every digit of the unit
+fn pair_laws(u: u8, ts: &[i64], ctx: &mut Ctx) {
+    let fam = "datetime-datetime";
+    let unit_ns = 1_000_000_000 / PER_SEC[u as usize] as i128;
+    for &a in ts {
+        ctx.states += 1;
+        ctx.traces += 1;
+        ctx.fam(fam).states += 1;
+        ctx.nontrivial(fam, hash_u64s(&[u as u64, a as u64]));
+        for &b in ts {
+            ctx.transitions += 1;
+            let got = by_unit!(u, U => catch(|| {
+                let (x, y) = (DateTime::<U>::new(a), DateTime::<U>::new(b));
+                let d = x - y;
+                ((y + d).into_i64(), (x - d).into_i64(), d.months, d.inner.num_seconds() as i128 * 1_000_000_000 + d.inner.subsec_nanos() as i128)
+            }));
+            ctx.eval(fam, match &got { Outcome::Ok(g) => g.3 as u64, _ => 1 });
+            let want_ns = (a as i128 - b as i128) * unit_ns;
+            let ok = matches!(&got, Outcome::Ok((ra, rb, m, ns)) if *ra == a && *rb == b && *m == 0 && *ns == want_ns);
+            if !ok {
+                viol(ctx, "(a-b)+b==a / a-(a-b)==b / a-b exact", None, json!({"family": fam, "unit": UNITS[u as usize], "t": a, "b": b}),
+                    format!("b+(a-b) = {a}, a-(a-b) = {b}, months 0, a-b = {want_ns} ns"), format!("{got:?}"));
+            }
+        }
+    }
+}
+
 /// adding calendar months agrees with chrono (end-of-month clamping), both signs
 fn month_laws(u: u8, ts: &[i64], ctx: &mut Ctx, kmax: i32) {
     let fam = "datetime+-months";
@@ -407,13 +435,14 @@ fn main() {
             "duration_trunc" => trunc_laws(u, &t, &mut ctx),
             "datetime+-months" => month_laws(u, &t, &mut ctx, 1200),
             "datetime+-duration" => inverse_laws(u, &t, &mf, &mut ctx),
+            "datetime-datetime" => pair_laws(u, &[t[0], case["b"].as_i64().unwrap_or(0)], &mut ctx),
             "duration-group" => duration_group(&mut ctx, &all_d),
             _ => time_of_day(&mut ctx, true),
         }
         std::process::exit(finish_replay(&run, &stored, ctx));
     }
     // work items: (kind, unit)
-    let items: Vec<(u8, u8)> = (0..4u8).flat_map(|k| (0..4u8).map(move |u| (k, u))).collect();
+    let items: Vec<(u8, u8)> = (0..5u8).flat_map(|k| (0..4u8).map(move |u| (k, u))).collect();
     let mut total = par_items(&items, run.threads, |(kind, u), ctx| match kind {
         0 => inverse_laws(*u, &instants(*u, &all_years), &core, ctx),
         1 => inverse_laws(*u, &instants(*u, &rep_years), &mf, ctx),
@@ -421,7 +450,11 @@ fn main() {
             let eom: Vec<i64> = instants(*u, &rep_years[..rep_years.len().min(8)]);
             month_laws(*u, &eom, ctx, if run.quick() { 240 } else { 1200 });
         }
-        _ => trunc_laws(*u, &instants(*u, &all_years), ctx),
+        3 => trunc_laws(*u, &instants(*u, &all_years), ctx),
+        _ => {
+            let years: Vec<i32> = if run.quick() { vec![1678, 1700, 1969, 1970, 2000, 2200, 2261] } else { rep_years.iter().cloned().step_by(3).chain([1678, 1969, 1970, 2261]).collect() };
+            pair_laws(*u, &instants(*u, &years), ctx)
+        }
     });
     let mut c = Ctx::new();
     duration_group(&mut c, &all_d[..if run.quick() { all_d.len().min(6000) } else { all_d.len() }]);
